@@ -153,8 +153,23 @@ def check(ctx, src):
         t = d.src()
         if name in ("%", "^", "**"):
             continue
-        ok = ("a-rest a1)" in t) or ("a-rest) a1)" in t) or ("args)" in t)
-        ctx.check(ok, "T-FOLD", f"{name}|pyops start", f"hy.pyops.{name} does not left-fold starting from its first argument", PY, d.line, detail="reduce(op, rest, a1) / reduce(op, args)")
+        # the n-ary case is a left fold that starts from the first argument: (reduce OP <rest...> a1), or (reduce OP args)
+        # over all the arguments
+        ll = d.items[2]
+        params = [x.val for x in ll.items if x.kind == "sym" and x.val != "#*"]
+        rest = next((ll.items[i + 1].val for i in range(len(ll.items) - 1) if ll.items[i].is_sym("#*")), None)
+        rest = rest or next((x.items[1].val for x in ll.items if x.kind == "expr" and x.head() == "unpack-iterable" and len(x.items) == 2), None)
+        params = [p_ for p_ in params if p_ != rest]
+        body_n = hysexp.value_for_count(d.items[-1], rest, 3) if rest else d.items[-1]
+        red = [n for n in (body_n.walk() if body_n is not None else []) if n.kind == "expr" and n.head() == "reduce"]
+        verdict = None
+        if len(red) == 1:
+            a = red[0].items[1:]
+            if len(a) == 3:
+                verdict = (bool(params) and a[2].is_sym(params[0])) if a[2].kind == "sym" else None
+            elif len(a) == 2:
+                verdict = a[1].is_sym(rest) and not params if a[1].kind == "sym" else None
+        ctx.decide("T-FOLD", f"{name}|pyops start", verdict, f"hy.pyops.{name} does not left-fold starting from its first argument ({red[0].src() if red else None})", PY, d.line, detail="reduce(op, rest, a1) / reduce(op, args)")
     # --- identities
     null = pyq.contains(mx, lambda n: isinstance(n, ast.If) and norm(n.test) == "len(args) == 0")
     ctx.need(null is not None, "macro nullary arm not found")
@@ -172,9 +187,22 @@ def check(ctx, src):
     ctx.check(set(nd) == {n for n, r in shadow.items() if r["func"].name == "compile_maths_expression" and pattern_arity(r["pattern"])[0] == 0}, "T-IDENT", "nullary|domain",
               "the identity table does not cover exactly the operators that accept zero arguments", R, null.lineno, witness="(|) raises KeyError inside the compiler", detail=str(sorted(nd)))
     # unary cases, identified by what they build and decided by the conditions on the path to it
-    rec = pmx.find(mx, "args = [Integer(1).replace(expr), args[0]]")
-    ctx.check(rec is not None and pyq.has_atoms(rec, mx, ["len(args) == 1", "root == '/'"], about="root"), "T-IDENT", "/|unary", "unary / must be rewritten to (/ 1 x) with the integer 1, exactly for one argument of `/`",
-              R, mx.lineno, witness="(/ x) with a huge int differs from Python's 1/x (float numerator)", detail="[Integer(1), x]")
+    # the reciprocal: a two-element list [<one>, <the only argument>] built under `len(args) == 1` and `root == '/'`;
+    # <one> must be the integer model 1 (a float numerator changes the result for big ints and Fractions)
+    ap = mx.args.args[3].arg if len(mx.args.args) > 3 else "args"
+    recs = [n for n in ast.walk(mx) if isinstance(n, ast.List) and len(n.elts) == 2 and isinstance(n.elts[1], ast.Subscript) and norm(n.elts[1]) == f"{ap}[0]"]
+    verdict = None
+    for r_ in recs:
+        ctors = [c for c in ast.walk(r_.elts[0]) if isinstance(c, ast.Call) and isinstance(c.func, ast.Name) and c.func.id[:1].isupper()]
+        if not ctors:
+            continue
+        c0 = ctors[-1]
+        is_int_one = c0.func.id == "Integer" and len(c0.args) == 1 and isinstance(c0.args[0], ast.Constant) and c0.args[0].value == 1 and type(c0.args[0].value) is int
+        guarded = pyq.has_atoms(r_, mx, ["len(args) == 1", "root == '/'"], about="root")
+        verdict = bool(is_int_one) if guarded else (False if is_int_one else None)
+        rec = r_
+    ctx.decide("T-IDENT", "/|unary", verdict, "unary / must be rewritten to (/ 1 x) with the integer 1, exactly for one argument of `/`",
+               R, mx.lineno, witness="(/ x) with a huge int differs from Python's 1/x (float numerator)", detail="[Integer(1), x]")
     uop = pyq.contains(mx, lambda n: isinstance(n, ast.Call) and dotted(n.func) == "asty.UnaryOp")
     tbl = pyq.contains(mx, lambda n: isinstance(n, ast.Dict) and {getattr(k, "value", None) for k in n.keys} == {"+", "-"})
     same = [r for r in ast.walk(mx) if isinstance(r, ast.Return) and norm(r.value) == "compiler.compile(args[0])"]
@@ -213,8 +241,13 @@ def check(ctx, src):
               "the #* fallback to hy.pyops must be decided before the arguments are matched against the macro's pattern", compq.MC, w.lineno,
               witness="(** #* [2 3]) is a syntax error although (hy.pyops.** 2 3) is fine", detail="before pattern.parse")
     if sh is not None:
-        ctx.check("Expression([Expression(map(Symbol, ['.', 'hy', 'pyops', name])), *args]).replace(_hy_compiler.this)" in norm(sh.body[0]).replace("\n", ""), "T-SHADOW", f"{compq.MC}|pattern_macro.wrapper|target",
-                  "the fallback must call (. hy pyops NAME) with the same arguments", compq.MC, sh.lineno, detail="(. hy pyops name)")
+        # what the fallback returns: a call form whose head is (. hy pyops NAME) and whose arguments are the macro's own
+        consts = [c.value for st in sh.body for c in ast.walk(st) if isinstance(c, ast.Constant) and isinstance(c.value, str)]
+        star = any(isinstance(x, ast.Starred) and isinstance(x.value, ast.Name) and x.value.id == "args" for st in sh.body for x in ast.walk(st))
+        names = any(isinstance(x, ast.Name) and x.id == "name" for st in sh.body for x in ast.walk(st))
+        idx = [consts.index(x) if x in consts else None for x in (".", "hy", "pyops")]
+        verdict = None if None in idx and "pyops" not in consts else (None not in idx and idx == sorted(idx) and star and names)
+        ctx.decide("T-SHADOW", f"{compq.MC}|pattern_macro.wrapper|target", verdict, f"the fallback must call (. hy pyops NAME) with the same arguments (head built from {consts}, *args: {star})", compq.MC, sh.lineno, detail="(. hy pyops name)")
     from . import c11 as _c11
     from .. import core as _core
 
